@@ -30,8 +30,10 @@ func runC09(c *core.Ctx) {
 	h.staleSnapshotIgnored("C09.6 stale-snapshot-ignored")
 	h.snapshotOrder("C09.7 snapshot-order")
 	h.labelCoherence("C09.1c label-coherence")
+	h.openStorageLoads("C09.9 restart-loads", "last")
 	c.Clause("C09.8 a snapshot being opened for a follower or a restore is pinned before its files are touched; pruning spares pinned and retained snapshots")
 	h.snapshotOpenPinned("C09.8 open-pinned")
+	h.logChangedOnlyWithoutReaders("C09.10 log-readers")
 }
 
 func runC12(c *core.Ctx) {
@@ -48,6 +50,7 @@ func runC12(c *core.Ctx) {
 	// …and must not be edited in place (it shares its node map with the latest configuration)
 	h.oneActionPerEntry("C12.5c one-action")
 	h.applyInOrder("C12.2b applied-position")
+	h.snapshotFallback("C12.6 snapshot-fallback")
 }
 
 func runC10(c *core.Ctx) {
